@@ -180,8 +180,16 @@ def rule_family(rule, meta):
         if row is None or row.get('witness') != 'none':
             return name, f'unmodelled:family-mismatch:none:{row and row.get("witness")}'
         return name, 'none'
+    if isinstance(rule, prules.NarrowQuantifierRule):
+        # QuantifierFatRule (ExtendedQuantifierRule: NodeConsts, one target per unapplied constant) / QuantifierSkinnyRule
+        fam = 'eachConst' if isinstance(rule, prules.ExtendedQuantifierRule) else 'newConst'
+        if row is None or row.get('witness') != fam:
+            return name, f'unmodelled:family-mismatch:{fam}:{row and row.get("witness")}'
+        return name, fam
     if isinstance(rule, prules.QuantifiedSentenceRule):
-        return name, 'unmodelled:quantifier'
+        if row is None or row.get('witness') != 'none':
+            return name, f'unmodelled:family-mismatch:none:{row and row.get("witness")}'
+        return name, 'none'
     return name, 'unmodelled:' + ('identity' if name == 'IdentityIndiscernability' else 'other')
 
 
@@ -223,6 +231,13 @@ def probe_targets(rule, branch):
     return out
 
 
+def fix_new_const(step, c):
+    "a new-constant step names `branch.new_constant()` (read before the step), also when the instance does not mention it"
+    ts = step.split()
+    ts[3] = f'{c.index}.{c.subscript}'
+    return ' '.join(ts)
+
+
 def probe_state(tab, meta, fams):
     "[[branch index, model rule name, sorted steps]] for every open branch and modelled rule with a non-empty target set"
     out = []
@@ -240,7 +255,10 @@ def probe_state(tab, meta, fams):
                 acc.setdefault(name, set()).add('X')
                 continue
             for tg in tgs:
-                acc.setdefault(name, set()).add(enc_step(tab, _Entry(rule, tg), meta, set()))
+                st = enc_step(tab, _Entry(rule, tg), meta, set(b.constants))
+                if fam == 'newConst' and st.startswith('R '):
+                    st = fix_new_const(st, b.new_constant())
+                acc.setdefault(name, set()).add(st)
         for name in sorted(acc):
             out.append([bi, name, sorted(acc[name])])
     return out
@@ -264,7 +282,7 @@ def run_job(job):
     observations = []
     probing = bool(job.get('probe'))
     if probing:
-        from pytableaux.proof.helpers import MaxWorlds as _MW
+        from pytableaux.proof.helpers import MaxWorlds as _MW, MaxConsts as _MC
         slog = install_search_log()
         fams = {id(r): rule_family(r, meta) for r in tab.rules}
         events = []
@@ -273,6 +291,7 @@ def run_job(job):
         pre = {id(b): set(b.constants) for b in tab}
         if probing:
             slog.clear()
+            pre_nc = {id(b): b.new_constant() for b in tab}
         e = tab.step()
         if e is None:
             break
@@ -281,9 +300,12 @@ def run_job(job):
             # the search that returned the applied target belongs to the application itself (model: `stepEv (.apply …)`)
             last = max((i for i, (r, b) in enumerate(slog) if r is e.rule and b is e.target.branch), default=-1)
             for i, (r, b) in enumerate(slog):
-                if i != last and _MW in r.helpers and not fams[id(r)][1].startswith('unmodelled'):
+                if i != last and (_MW in r.helpers or _MC in r.helpers) and not fams[id(r)][1].startswith('unmodelled'):
                     events.append(f'S {fams[id(r)][0]} {branch_index(tab, b)}')
-            events.append(f'A {fams[id(e.rule)][0]} {steps[-1]}')
+            ast = steps[-1]
+            if fams[id(e.rule)][1] == 'newConst' and ast.startswith('R '):
+                ast = fix_new_const(ast, pre_nc[id(e.target.branch)])
+            events.append(f'A {fams[id(e.rule)][0]} {ast}')
             probes.append(probe_state(tab, meta, fams))
         if job.get('observe'):
             observations.append(dict(n=len(tab.history), nbranches=len(tab), nopen=len(tab.open)))
